@@ -147,6 +147,56 @@ Theorem C09_pending_op_was_scheduled_by_proposer :
 Proof. exact pending_op_was_scheduled_by_proposer. Qed.
 Print Assumptions C09_pending_op_was_scheduled_by_proposer.
 
+(* END TO END, over every call sequence from the constructor: whenever - with the controller as its own
+   admin - an admin-only entry point (or grant/revoke/renounce by the controller) succeeds, that call
+   consumed an operation o = (controller, that function, those arguments, pred, salt): Ready before, Done
+   after; and a successful schedule_op of an operation o' with the same id (o' = o when hash is
+   collision-free) lies earlier in the history, made by an account that held the proposer role then and
+   signed, with delay >= the minimum delay in force then; nothing succeeded on the id in between (not
+   cancelled, not executed, not re-scheduled) and the delay has fully elapsed. *)
+Theorem C09_self_admin_call_was_scheduled :
+  forall (hash : op -> id) (aid : argv -> N) (cf : cfg) n0 md props execs adm s0 cs c s' r,
+    2 <= n0 <= MAXU32 -> construct cf n0 md props execs adm = Ok s0 ->
+    let s := run hash aid cf s0 cs in
+    step_ok hash aid cf s c = Ok (s', r) -> admin (acs s) = Some (self cf) -> self_admin_call cf c ->
+    consumes hash aid cf s c s' /\
+    exists se m rest0,
+      a_self (authz_of c) = Some se /\ se_metas se = m :: rest0 /\
+      let o := Op (self cf) (fn_of c) (aid (argv_of c)) (m_pred m) (m_salt m) in
+      state_of (ctl s) (hash o) = Ready /\ state_of (ctl s') (hash o) = Done /\
+      exists Ha o' d mm at_ Hb pre p au rest,
+        chist hash aid cf s0 cs = Ha ++ HE (Schedule o' d) at_ (Some mm) true :: Hb /\ hash o' = hash o /\
+        ((forall a b, hash a = hash b -> a = b) -> o' = o) /\ mm <= d /\
+        (forall x, In x Hb -> subject hash (he_call x) = Some (hash o) -> he_ok x = false) /\
+        cs = pre ++ ScheduleOp o' d p au :: rest /\
+        snd (step hash aid cf (run hash aid cf s0 pre) (ScheduleOp o' d p au)) <> Fail /\
+        holds (acs (run hash aid cf s0 pre)) p PROPOSER = true /\
+        (p <> self cf -> has_auth (a_plain au) p = true) /\
+        now (ctl (run hash aid cf s0 pre)) = at_ /\ min_delay (ctl (run hash aid cf s0 pre)) = Some mm /\
+        Z.min (at_ + d) MAXU32 <= now (ctl s).
+Proof. exact self_admin_call_was_scheduled. Qed.
+Print Assumptions C09_self_admin_call_was_scheduled.
+
+(* ... and the admin transfer: whenever accept_admin_transfer succeeds, the new admin is an account that
+   an earlier successful transfer_admin_role of this history named (and it signed, unless it is the
+   controller, which then consumed an operation: C09_admin_effect_needs_ready_op); that
+   transfer_admin_role, if the controller was its own admin then, consumed a Ready operation for exactly
+   that call (hence C09_self_admin_call_was_scheduled applies to it). *)
+Theorem C09_accepted_admin_was_offered :
+  forall (hash : op -> id) (aid : argv -> N) (cf : cfg) n0 md props execs adm s0 cs au s' r,
+    construct cf n0 md props execs adm = Ok s0 ->
+    let s := run hash aid cf s0 cs in
+    step_ok hash aid cf s (AcceptAdmin au) = Ok (s', r) ->
+    exists pa pre lu au' rest,
+      admin (acs s') = Some pa /\ (pa <> self cf -> has_auth (a_plain au) pa = true) /\
+      cs = pre ++ TransferAdmin pa lu au' :: rest /\
+      snd (step hash aid cf (run hash aid cf s0 pre) (TransferAdmin pa lu au')) <> Fail /\
+      (admin (acs (run hash aid cf s0 pre)) = Some (self cf) ->
+       consumes hash aid cf (run hash aid cf s0 pre) (TransferAdmin pa lu au')
+                (fst (step hash aid cf (run hash aid cf s0 pre) (TransferAdmin pa lu au')))).
+Proof. exact accepted_admin_was_offered. Qed.
+Print Assumptions C09_accepted_admin_was_offered.
+
 (* The history machine of C08 accepts the controller's timelock-level run log, i.e. every
    execution (by execute_op or by a consuming authorisation) satisfies C08's conditions. *)
 Theorem C09_controller_refines_timelock :
@@ -157,10 +207,14 @@ Proof. exact crun_ghost. Qed.
 Print Assumptions C09_controller_refines_timelock.
 
 (* The monitor run on the implementation's traces accepts every run of the model, and the model's
-   diff with itself is empty. *)
+   diff with itself is empty - for every measured id / argument table that is a function and injective
+   and whose ids are all observed, and every call sequence that names only accounts, roles and executors
+   of the observed universe and attaches authorisations of the controller only to calls whose argument
+   vector is in the table ([call_wf], a boolean that [check] itself verifies on every trace). *)
 Theorem C09_monitor_accepts_model :
   forall cf n0 md props execs adm ids naddr nroles tags tbl avs s0 cs,
-    2 <= n0 <= MAXU32 -> tbl_ok tbl = true -> avs_ok avs = true -> (3 <=? nroles)%N = true ->
+    2 <= n0 <= MAXU32 -> tbl_ok tbl = true -> avs_ok avs = true -> tbl_in ids tbl = true -> (3 <=? nroles)%N = true ->
+    forallb (call_wf naddr nroles avs) cs = true ->
     construct cf n0 md props execs adm = Ok s0 ->
     check (model_trace cf n0 md props execs adm ids naddr nroles tags tbl avs s0 cs) = (0%N, 0%N, 0%N).
 Proof. exact check_accepts_model. Qed.
@@ -174,3 +228,22 @@ Example C09_self_admin_reachable :
   /\ min_delay (ctl (ex_run [ex_sched; Advance 2; ex_update])) = Some 5
   /\ admin (acs Run.C09.ex_s0) = Some (self Run.C09.ex_cf).
 Proof. vm_compute. repeat split. Qed.
+
+(* the other flavours: no executor configured (nobody named, nobody signs); the controller itself holds
+   the executor role and is named (nobody signs); an operation cancelled, scheduled again, consumed *)
+Example C09_no_executor_configured :
+  nv_run [] [ex_sched; Advance 2; UpdateDelay 5 (AZ [] (ex_self [Meta 0 0 None]) [])] = [true; true; true].
+Proof. vm_compute. reflexivity. Qed.
+Example C09_controller_as_executor :
+  nv_run [3%N]
+    [ScheduleOp nv_opE 2 2 (AZ [2%N] None []); ex_sched; Advance 2;
+     UpdateDelay 5 (AZ [] (ex_self [Meta 0 0 (Some 1%N)]) []);                                              (* not yet an executor *)
+     GrantRole 1 2 1 (AZ [] (Some (SE (CtxC 1 11 8) [] [Meta 0 0 (Some 3%N)])) [(3%N, nv_opE)]);
+     UpdateDelay 5 (AZ [] (ex_self [Meta 0 0 (Some 1%N)]) [])]                                              (* named, nobody signs *)
+  = [true; true; true; false; true; true].
+Proof. vm_compute. reflexivity. Qed.
+Example C09_cancelled_rescheduled_consumed :
+  nv_run [3%N]
+    [ex_sched; CancelOp 1 2 (AZ [2%N] None []); Advance 2; ex_update; ex_sched; Advance 1; ex_update; Advance 1; ex_update]
+  = [true; true; true; false; true; true; false; true; true].
+Proof. vm_compute. reflexivity. Qed.
